@@ -2635,7 +2635,11 @@ CHECK_ADF_ABORT( *error_return ) ;
 
 /* if it was provided, check to make sure the data types match */
 if( m_data_type != NULL ) {
-  if(strncmp(m_data_type, node.data_type, 2) != 0){
+  /* a caller that names a simple type sized its buffer for it: a compound
+     type ("I4,R8", "R8[3]") that merely starts with it does not match */
+  if(strncmp(m_data_type, node.data_type, 2) != 0 ||
+     (m_data_type[2] == '\0' &&
+      node.data_type[2] != ' ' && node.data_type[2] != '\0')){
     *error_return = INVALID_DATA_TYPE;
     CHECK_ADF_ABORT( *error_return );
   }
@@ -2968,7 +2972,11 @@ CHECK_ADF_ABORT( *error_return ) ;
 
 /* if it was provided, check to make sure the data types match */
 if( m_data_type != NULL ) {
-  if(strncmp(m_data_type, node.data_type, 2) != 0){
+  /* a caller that names a simple type sized its buffer for it: a compound
+     type ("I4,R8", "R8[3]") that merely starts with it does not match */
+  if(strncmp(m_data_type, node.data_type, 2) != 0 ||
+     (m_data_type[2] == '\0' &&
+      node.data_type[2] != ' ' && node.data_type[2] != '\0')){
     *error_return = INVALID_DATA_TYPE;
     CHECK_ADF_ABORT( *error_return );
   }
